@@ -142,11 +142,12 @@ def maxabs(A):
 # ----------------------------------------------------------------------------- processes
 class Impl:
     """results of one harness case"""
-    __slots__ = ("R", "X", "crashed", "why", "ended", "garbage", "skipped")
+    __slots__ = ("R", "X", "crashed", "why", "ended", "garbage", "skipped", "P")
 
     def __init__(self):
         self.R, self.X, self.crashed, self.why, self.ended, self.garbage = {}, None, False, None, False, False
         self.skipped = False
+        self.P = {}          # "P key rest-of-line" lines (PAR command: team size, per data set exceptions)
 
     def mat(self, tag):
         """-> (rows, cols, list of list of Fraction|None) or None"""
@@ -159,8 +160,11 @@ class Impl:
         return r, c, [vals[i * c:(i + 1) * c] for i in range(r)]
 
 
-def run_impl(ctx, exe, lines, per_case_timeout=40):
+def run_impl(ctx, exe, lines, per_case_timeout=40, env=None):
     """run harness lines; survives crashes / hangs by restarting after the case that died"""
+    penv = {"OMP_NUM_THREADS": "2", "OMP_WAIT_POLICY": "passive"}
+    if env:
+        penv.update(env)
     results = [None] * len(lines)
     start = 0
     deaths = 0
@@ -174,7 +178,7 @@ def run_impl(ctx, exe, lines, per_case_timeout=40):
         chunk = lines[start:]
         t0 = ctx.elapsed()
         r = ctx.run(exe, "\n".join(chunk) + "\n", timeout=max(per_case_timeout, 15 + len(chunk) // 2),
-                    env={"OMP_NUM_THREADS": "2", "OMP_WAIT_POLICY": "passive"})
+                    env=penv)
         TIMES["impl"] += ctx.elapsed() - t0
         cur = None
         for line in r.out.splitlines():
@@ -198,6 +202,10 @@ def run_impl(ctx, exe, lines, per_case_timeout=40):
                     results[cur].garbage = True
             elif line.startswith("X "):
                 results[cur].X = line.split(" ", 2)[2] if len(line.split(" ", 2)) > 2 else ""
+            elif line.startswith("P "):
+                w = line.split(" ", 2)
+                if len(w) >= 2:
+                    results[cur].P[w[1]] = w[2] if len(w) > 2 else ""
             elif line.startswith("END "):
                 results[cur].ended = True
         last_ok = max([i for i, x in enumerate(results) if x is not None and x.ended] or [start - 1])
@@ -378,7 +386,11 @@ def gen_e2e(rng, quick, count, nmax):
             amp = rng.choice([3, 10, 100])
             P = rand_points(rng, n, r, amp, off)
             if kind == "lattice":
-                P = [[rng.randint(0, 2) for _ in range(r)] for _ in range(n)]      # many equal distances
+                # many equal distances; every other lattice is scaled by a non-power-of-two and permuted, so that the
+                # exact ties become ties up to rounding
+                sc = rng.choice([1.0, 0.1, 3.7, 1.0 / 3.0])
+                P = [[rng.randint(0, 2) * sc for _ in range(r)] for _ in range(n)]
+                rng.shuffle(P)
             if kind == "dupes":
                 for _ in range(max(1, n // 3)):
                     P[rng.randrange(n)] = list(P[rng.randrange(n)])
@@ -431,11 +443,13 @@ def gen_e2e(rng, quick, count, nmax):
             c.update(table=T, n=n, d=d)
         elif kind.startswith("kpca"):
             r = rng.randint(1, min(4, n - 1))
+            if kind == "kpca_lin" and rng.random() < 0.25:
+                r = n + rng.randint(0, 3)               # more features than samples
             P = rand_points(rng, n, r, rng.choice([2, 5, 30]), rng.choice([0, 0, 50]))
             if kind == "kpca_lin":
                 T = gram_table(P)
                 d = rng.choice([r, r, min(n - 1, r + 1), max(1, r - 1)])
-                rank = r
+                rank = min(r, n - 1)
             elif kind == "kpca_gauss":
                 sg = float(rng.choice([1, 4, 25]))
                 D = dist_table(P)
@@ -493,11 +507,16 @@ def gen_exact(rng, count):
                     T[i][j] = T[j][i] = v
             sym = True
         elif sub == 1:      # 1-D point set (Euclidean, integer distances) / linear kernel
-            xs = [rng.randint(-8, 8) for _ in range(n)]
+            # linear kernel: every other case with a large common OFFSET (2^20 or 10^6 against a spread of 8: kernel
+            # entries ~1e12, centred entries ~64); still exact in binary64 (entries < 2^41, means are multiples of 2^-8)
+            off = rng.choice([2 ** 20, 10 ** 6]) if (kind == "KM" and (t // 12) % 2) else 0
+            xs = [off + rng.randint(-8, 8) for _ in range(n)]
             for i in range(n):
                 for j in range(n):
                     T[i][j] = abs(xs[i] - xs[j]) if kind == "DM" else xs[i] * xs[j]
             sym = True
+            if off:
+                sub = "1_offset"
         else:               # lower triangle is garbage: the routines must not look at it
             for i in range(n):
                 for j in range(n):
@@ -507,7 +526,7 @@ def gen_exact(rng, count):
         # routines stays exact in binary64, so the comparison with the Qc model is still bit for bit)
         e = SCALE_EXPS[(t // 3) % len(SCALE_EXPS)] if t % 3 == 1 else 0
         cases.append({"stream": "exact", "cmd": kind, "n": n, "table": [[float(x) * 2.0 ** e for x in r] for r in T],
-                      "sym": sym, "gen": "exact_%s_%d%s" % (kind, sub, "_2^%d" % e if e else "")})
+                      "sym": sym, "gen": "exact_%s_%s%s" % (kind, sub, "_2^%d" % e if e else "")})
     return cases
 
 
@@ -603,20 +622,29 @@ def plan_scaled(chunk, counter, quick):
 
 
 def case_key(c):
+    if "datasets" in c:
+        return hashlib.sha1(json.dumps([c.get("stream"), c.get("levels"), c.get("thread_limit"), c.get("variant"),
+                                        [case_key(d) for d in c["datasets"]]]).encode()).hexdigest()
     return hashlib.sha1(json.dumps([c.get("stream"), c.get("cmd"), c.get("meth"), c.get("solver"), c.get("n"),
                                     c.get("d"), c.get("k"), hexrow(sum(c["table"], []))]).encode()).hexdigest()
 
 
 def slim(c):
     """JSON-serialisable replay form of a case (exact numbers as hex floats)"""
-    out = {k: v for k, v in c.items() if k not in ("table", "points") and not k.startswith("_")}
-    out["table"] = [hexrow(r) for r in c["table"]]
+    out = {k: v for k, v in c.items() if k not in ("table", "points", "datasets") and not k.startswith("_")}
+    if "datasets" in c:
+        out["datasets"] = [slim(d) for d in c["datasets"]]
+    else:
+        out["table"] = [hexrow(r) for r in c["table"]]
     return out
 
 
 def unslim(c):
     c = dict(c)
-    c["table"] = [[float.fromhex(x) if isinstance(x, str) else float(x) for x in r] for r in c["table"]]
+    if "datasets" in c:
+        c["datasets"] = [unslim(d) for d in c["datasets"]]
+    else:
+        c["table"] = [[float.fromhex(x) if isinstance(x, str) else float(x) for x in r] for r in c["table"]]
     return c
 
 
@@ -826,6 +854,32 @@ def factor_tolerances(lamn, solver, kappa_gs=None):
     return T1, T2, tau_o
 
 
+def factor_line(solver, n, d, Bm, Yq, top, lmax, kappa_gs=None):
+    """input line of the extracted per-entry-tolerance factor specification (c05_factor_w) for an embedding Yq (exact
+    rationals) of the model matrix Bm with reference eigenvalues top (the d largest, ascending, clamped at 0).
+    Returns (line, tau, Yq with its columns in canonical order)."""
+    # canonical column order: ascending squared norm (the property does not fix the order)
+    norms = [sum(Yq[a][cc] ** 2 for a in range(n)) for cc in range(d)]
+    order = sorted(range(d), key=lambda cc: norms[cc])
+    Yq = [[row[cc] for cc in order] for row in Yq]
+    # power-of-4 scaling so that the top eigenvalue is in [1,4): tolerances are RELATIVE to |B|
+    k4 = 0
+    if lmax > 0:
+        k4 = int(math.floor(math.log2(lmax) / 2.0))
+    s4 = Fraction(4) ** k4
+    s2 = Fraction(2) ** k4
+    lamq = [Fraction(x) / s4 for x in top]
+    T1, T2, tau = factor_tolerances([float(x) for x in lamq], solver, kappa_gs)
+    line = "FACTORW %d %d %s %s %s %s %s" % (
+        n, d,
+        " ".join(qstr(x / s4) for row in Bm for x in row),
+        " ".join(qstr(x / s2) for row in Yq for x in row),
+        " ".join(qstr(x) for x in lamq),
+        " ".join(qstr(Fraction(x)) for row in T1 for x in row),
+        " ".join(qstr(Fraction(x)) for x in T2))
+    return line, tau, Yq
+
+
 def eval_e2e(ctx, exe, mexe, cases, tab, stats, report=True):
     """public API end to end.  Returns list of booleans (case violated the spec).  Leaves c["_res"] on every case
     (status, embedding, replayed Gram-Schmidt norms) for the scaled copies that follow."""
@@ -980,26 +1034,9 @@ def eval_e2e(ctx, exe, mexe, cases, tab, stats, report=True):
         Yq = E[2]
         Yf = [[fl(x) for x in row] for row in Yq]
         c["_res"].update(status="ok", Y=Yf, lam=lam)
-        # canonical column order: ascending squared norm (the property does not fix the order)
-        norms = [sum(Yq[a][cc] ** 2 for a in range(n)) for cc in range(d)]
-        order = sorted(range(d), key=lambda cc: norms[cc])
-        Yq = [[row[cc] for cc in order] for row in Yq]
-        # power-of-4 scaling so that the top eigenvalue is in [1,4): tolerances are RELATIVE to |B|
-        k4 = 0
-        if lmax > 0:
-            k4 = int(math.floor(math.log2(lmax) / 2.0))
-        s4 = Fraction(4) ** k4
-        s2 = Fraction(2) ** k4
         tol = Fraction(1, 10 ** 8) if c["solver"] == "dense" else Fraction(1, 10 ** 6)
-        lamq = [Fraction(x) / s4 for x in top]
-        T1, T2, tau = factor_tolerances([float(x) for x in lamq], c["solver"], kappa_gs)
-        line = "FACTORW %d %d %s %s %s %s %s" % (
-            n, d,
-            " ".join(qstr(x / s4) for row in Bm for x in row),
-            " ".join(qstr(x / s2) for row in Yq for x in row),
-            " ".join(qstr(x) for x in lamq),
-            " ".join(qstr(Fraction(x)) for row in T1 for x in row),
-            " ".join(qstr(Fraction(x)) for x in T2))
+        line, tau, Yq = factor_line(c["solver"], n, d, Bm, Yq, top, lmax, kappa_gs)
+        c["_res"].update(top=top, embtok=r.R["emb"][2], Btok=r.R["B"][2])
         second.append((i, "factor", line))
         c["_res"]["tau"] = tau
         if not scaled:
@@ -1131,6 +1168,9 @@ def eval_e2e(ctx, exe, mexe, cases, tab, stats, report=True):
                             "(lambda ~ %g): residual %g" % (cc, lam[cl[0]], max(abs(x) for x in res)))
                     break
             stats["projector_checks"] += 1
+    for i, c in enumerate(cases):
+        if c.get("_res", {}).get("status") == "ok":
+            c["_res"]["spec_ok"] = not violated[i]
     return violated
 
 
@@ -1169,6 +1209,303 @@ def eval_isomap_vs_mds(ctx, exe, cases, stats):
                           "(Gram matrices of the two embeddings differ)")
         stats["isomap_vs_mds"] += 1
     return len(iso)
+
+
+# ----------------------------------------------------------------------------- variants: calling context, keywords
+# The property quantifies over inputs AND configurations: the same request must give an embedding that meets the same
+# specification when tapkee::embed is called from inside an application's own OpenMP parallel region (one data set
+# per thread; nested parallelism off / on; OMP_THREAD_LIMIT below the requested team) and when a keyword is left at its
+# library default instead of being set explicitly to the same value.  Bit-for-bit equality with the plain serial call
+# (which went through the factor specification) is the short cut; anything that is not bit-for-bit equal goes through
+# the extracted decision procedure itself, and the matrix handed to the solver is compared with the model's.
+PAR_CONFIGS = [(1, 0), (2, 0), (1, 2), (2, 2)]      # (omp_set_max_active_levels, OMP_THREAD_LIMIT; 0 = unset)
+PAR_THREADS = 4
+PAR_BATCH = 8
+
+
+def variant_eligible(c):
+    res = c.get("_res") or {}
+    return (c.get("stream") == "e2e" and c.get("solver") == "dense" and not c.get("scale_exp")
+            and res.get("status") == "ok" and res.get("spec_ok") and "embtok" in res
+            and c["meth"] in ("mds", "kpca", "isomap") and c["n"] <= 32)
+
+
+def plan_variants(chunk, counter, quick):
+    """PAR batches over the eligible base cases of an evaluated chunk (configurations cycle) + keyword variants"""
+    el = [c for c in chunk if variant_eligible(c)]
+    out = []
+    for i in range(0, len(el), PAR_BATCH):
+        ds = el[i:i + PAR_BATCH]
+        lv, lim = PAR_CONFIGS[counter[0] % len(PAR_CONFIGS)]
+        counter[0] += 1
+        out.append({"stream": "par", "levels": lv, "threads": PAR_THREADS, "thread_limit": lim, "datasets": ds,
+                    "n": max(d["n"] for d in ds),
+                    "gen": "par_region/levels=%d%s" % (lv, ",thread_limit=%d" % lim if lim else "")})
+    for j, c in enumerate(el):
+        out.append({"stream": "kw", "variant": "eigen_method_unset", "datasets": [c], "n": c["n"],
+                    "gen": "keyword_default/eigen_method_unset"})
+        if c["d"] == 2:
+            out.append({"stream": "kw", "variant": "target_dimension_unset", "datasets": [c], "n": c["n"],
+                        "gen": "keyword_default/target_dimension_unset"})
+    return out
+
+
+def model_B_line(d):
+    return "%s %d %s" % ({"mds": "MDS", "kpca": "KPCA", "isomap": "MDS"}[d["meth"]], d["n"], tab_q(d["table"]))
+
+
+def context_text(b, r=None):
+    if b["stream"] == "par":
+        return ("called from inside the application's `#pragma omp parallel for num_threads(%d)` region, one data set per "
+                "thread (omp_set_max_active_levels(%d), OMP_THREAD_LIMIT %s, OMP_NUM_THREADS 2%s)" % (
+                    b["threads"], b["levels"], b["thread_limit"] or "unset",
+                    ", observed team: %s" % r.P["team"].split()[0] if r is not None and "team" in r.P else ""))
+    if b["variant"] == "eigen_method_unset":
+        return "called with the eigen_method keyword left unset (library default) instead of eigen_method = Dense"
+    return "called with the target_dimension keyword left unset (documented default 2) instead of target_dimension = 2"
+
+
+def eval_variants_inner(ctx, exe, mexe, tab, batches, stats):
+    """-> list of (batch index, data set index, why) for every data set whose variant call violates the property"""
+    found = []
+    if not batches:
+        return found
+    results = [None] * len(batches)
+    groups = {}
+    for bi, b in enumerate(batches):
+        groups.setdefault(b.get("thread_limit", 0) if b["stream"] == "par" else -1, []).append(bi)
+    for lim, idxs in sorted(groups.items()):
+        lines = []
+        for bi in idxs:
+            b = batches[bi]
+            if b["stream"] == "par":
+                lines.append("PAR %d %d %d %s" % (b["levels"], b["threads"], len(b["datasets"]), " ".join(
+                    "%s %d %d %d %s" % (d["meth"], d["d"], d["k"], d["n"], tab_tokens(d["table"])) for d in b["datasets"])))
+            else:
+                d = b["datasets"][0]
+                lines.append("EMB %s %s %d %d %d %d %s" % (
+                    d["meth"], "default" if b["variant"] == "eigen_method_unset" else "dense", d["seed"], d["n"],
+                    -1 if b["variant"] == "target_dimension_unset" else d["d"], d["k"], tab_tokens(d["table"])))
+        impl = run_impl(ctx, exe, lines, env={"OMP_THREAD_LIMIT": str(lim)} if lim > 0 else None)
+        for bi, r in zip(idxs, impl):
+            results[bi] = r
+    pending = []            # (bi, di, kind, payload)
+    mlines = []
+    for bi, (b, r) in enumerate(zip(batches, results)):
+        if r.skipped:
+            continue
+        par = b["stream"] == "par"
+        stats["variant_" + b["stream"]] = stats.get("variant_" + b["stream"], 0) + 1
+        if r.crashed:
+            found.append((bi, 0, "tapkee::embed %s aborts / hangs: %s" % (context_text(b), str(r.why)[:500])))
+            continue
+        if par and "team" in r.P:
+            key = "par_team_%s" % r.P["team"].split()[0]
+            stats[key] = stats.get(key, 0) + 1
+        if r.X is not None and par:
+            found.append((bi, 0, "the batch driver threw (%s) %s" % (r.X, context_text(b))))
+            continue
+        for di, d in enumerate(b["datasets"]):
+            res = d.get("_res") or {}
+            if res.get("status") != "ok" or not res.get("spec_ok") or "embtok" not in res:
+                continue          # the plain serial call itself fails: reported by the end-to-end stream
+            n, dd = d["n"], d["d"]
+            what = "data set %d (%s, N=%d, target_dimension=%d)" % (di, d["meth"], n, dd)
+            stats["variant_datasets"] = stats.get("variant_datasets", 0) + 1
+            if par:
+                perr, serr = r.P.get("perr%d" % di), r.P.get("serr%d" % di)
+                if serr is not None:
+                    ctx.mismatch(slim(b), "%s: the serial call inside the batch driver throws (%s) but the same call in the "
+                                 "end-to-end stream did not" % (what, serr))
+                    continue
+                if perr is not None:
+                    found.append((bi, di, "%s: tapkee::embed throws (%s) only when %s; the plain serial call on the same "
+                                          "table returns an embedding that meets the factor specification" % (
+                                              what, perr, context_text(b, r))))
+                    continue
+                tagB, tagE = "pB%d" % di, "pemb%d" % di
+            else:
+                if r.X is not None:
+                    found.append((bi, di, "%s: tapkee::embed throws (%s) when %s" % (what, r.X, context_text(b, r))))
+                    continue
+                tagB, tagE = None, "emb"
+            E = r.mat(tagE)
+            if r.garbage or E is None or (E[0], E[1]) != (n, dd) or (tagB and (r.mat(tagB) is None or
+                                                                             (r.mat(tagB)[0], r.mat(tagB)[1]) != (n, n))):
+                found.append((bi, di, "%s: the embedding / the solver input is missing or has the wrong shape when %s" % (
+                    what, context_text(b, r))))
+                continue
+            # the matrix handed to the solver in that calling context
+            if tagB:
+                if r.R[tagB][2] == res["Btok"]:
+                    stats["variant_B_bitwise"] = stats.get("variant_B_bitwise", 0) + 1
+                else:
+                    pending.append((bi, di, "B", r.mat(tagB)[2]))
+                    mlines.append(model_B_line(d))
+            if r.R[tagE][2] == res["embtok"]:
+                stats["variant_emb_bitwise"] = stats.get("variant_emb_bitwise", 0) + 1
+                continue
+            if any(x is None for row in E[2] for x in row):
+                found.append((bi, di, "%s: the embedding contains NaN/inf when %s; the plain serial call returns a finite "
+                                      "embedding that meets the factor specification" % (what, context_text(b, r))))
+                continue
+            pending.append((bi, di, "emb", E[2]))
+            mlines.append(model_B_line(d))
+    if not pending:
+        return found
+    mB = [model_matrix(x) for x in run_model(ctx, mexe, mlines)]
+    second = []
+    for (bi, di, kind, M), Bm in zip(pending, mB):
+        b, r = batches[bi], results[bi]
+        d = b["datasets"][di]
+        res = d["_res"]
+        n, dd = d["n"], d["d"]
+        what = "data set %d (%s, N=%d, target_dimension=%d)" % (di, d["meth"], n, dd)
+        if kind == "B":
+            scaleB = max([abs(x) for row in Bm for x in row] + [Fraction(1, 10 ** 300)])
+            bad = next(((a, c2) for a in range(n) for c2 in range(n)
+                        if M[a][c2] is None or abs(M[a][c2] - Bm[a][c2]) > Fraction(1, 10 ** 11) * scaleB), None)
+            if bad:
+                a, c2 = bad
+                found.append((bi, di, "%s: the matrix handed to the solver differs from %s at (%d,%d): got %s, mathematical "
+                                      "object %s, when %s; the plain serial call builds the mathematical object" % (
+                                          what, "J K J" if d["meth"] == "kpca" else "-1/2 J D2 J", a, c2,
+                                          None if M[a][c2] is None else float(M[a][c2]), float(Bm[a][c2]),
+                                          context_text(b, r))))
+            else:
+                stats["variant_B_within_tolerance"] = stats.get("variant_B_within_tolerance", 0) + 1
+        else:
+            line, tau, _ = factor_line("dense", n, dd, Bm, M, res["top"], res["lmax"])
+            second.append((bi, di, line, tau, M))
+    out = run_model(ctx, mexe, [x[2] for x in second])
+    for (bi, di, _, tau, M), o in zip(second, out):
+        b, r = batches[bi], results[bi]
+        d = b["datasets"][di]
+        res = d["_res"]
+        n, dd = d["n"], d["d"]
+        stats["spec_factor_checks"] += 1
+        if o == "B 1":
+            stats["variant_emb_spec_ok_not_bitwise"] = stats.get("variant_emb_spec_ok_not_bitwise", 0) + 1
+            continue
+        Yf = [[fl(x) for x in row] for row in M]
+        found.append((bi, di, "data set %d (%s, N=%d, target_dimension=%d): the embedding violates the factor specification "
+                              "(Y^T Y = diag(lambda), B Y = Y diag(lambda), lambda = %s; per-column relative tolerance %.2g) "
+                              "when %s: column squared norms %s; the plain serial call on the same table meets it" % (
+                                  di, d["meth"], n, dd, res["top"], tau, context_text(b, r),
+                                  sorted(sum(Yf[a][cc] ** 2 for a in range(n)) for cc in range(dd)))))
+    return found
+
+
+def eval_variants(ctx, exe, mexe, tab, batches, stats, report=True):
+    """calling-context (PAR) and keyword-default (kw) variants of end-to-end cases.  Replays carry their data sets
+    without results: those are evaluated first (plain serial call through the whole end-to-end pipeline)."""
+    if not batches:
+        return 0
+    pre = [d for b in batches for d in b["datasets"] if "_res" not in d]
+    if pre:
+        for d in pre:
+            d.setdefault("stream", "e2e")
+        eval_e2e(ctx, exe, mexe, pre, tab, stats, report=report)
+    found = eval_variants_inner(ctx, exe, mexe, tab, batches, stats)
+    seen, shrunk = set(), 0
+    for bi, di, why in found:
+        if bi in seen:
+            continue
+        seen.add(bi)
+        b = batches[bi]
+        if report:
+            small = b
+            if len(b["datasets"]) > 1 and shrunk < 3:
+                # one data set is enough when the defect depends on the calling context only
+                shrunk += 1
+                cand = dict(b, datasets=[b["datasets"][di]], n=b["datasets"][di]["n"])
+                f2 = eval_variants_inner(ctx, exe, mexe, tab, [cand], new_stats())
+                if f2:
+                    small, why = cand, f2[0][2]
+            ctx.violation(slim(small), why)
+    return len(batches)
+
+
+# ----------------------------------------------------------------------------- huge finite magnitudes
+# 2^498 ~ 8e149: the squares (~1e300) are still finite; from 2^511 on the squared distances / the column sums of the
+# centring overflow.  Whatever happens, the outcome must be a C++ exception the caller can catch or a matrix, never
+# std::terminate / abort (an exception thrown inside an OpenMP region terminates the process); where everything stays
+# finite the embedding must still meet the factor specification.
+HUGE_EXPS = {"dist": [498, 505, 511, 520, 700, 1000], "kernel": [990, 1005, 1012, 1016]}
+
+
+def gen_huge(rng, count):
+    cases = []
+    for t in range(count):
+        n = rng.choice([4, 5, 6, 8])
+        r = rng.choice([1, 2])
+        P = rand_points(rng, n, r, 5)
+        meth = ["mds", "kpca", "isomap"][t % 3]
+        solver = ["dense", "randomized", "default"][(t // 3) % 3]
+        exps = HUGE_EXPS["kernel" if meth == "kpca" else "dist"]
+        e = exps[(t // 3 + t // 9) % len(exps)]
+        T = gram_table(P) if meth == "kpca" else dist_table(P)
+        f = 2.0 ** e
+        m = max(abs(x) for row in T for x in row)
+        while m * f == float("inf"):
+            f /= 2.0
+            e -= 1
+        cases.append({"stream": "huge", "meth": meth, "solver": solver, "n": n, "d": min(r, n - 1), "rank": r,
+                      "k": n - 1 if meth == "isomap" else 0, "seed": rng.randrange(1, 10 ** 6),
+                      "table": [[x * f for x in row] for row in T], "huge_exp": e, "gen": "huge_2^%d" % e})
+    return cases
+
+
+def eval_huge(ctx, exe, mexe, cases, stats):
+    if not cases:
+        return 0
+    lines = ["FULL %s %s %d %d %d %d %s" % (c["meth"], c["solver"], c["seed"], c["n"], c["d"], c["k"],
+                                            tab_tokens(c["table"])) for c in cases]
+    impl = run_impl(ctx, exe, lines)
+    outcomes = stats.setdefault("huge_outcomes", {})
+    second, mlines = [], []
+    for c, r in zip(cases, impl):
+        if r.skipped:
+            continue
+        stats["huge"] = stats.get("huge", 0) + 1
+        n, d = c["n"], c["d"]
+        if r.crashed:
+            ctx.violation(slim(c), "finite input of huge magnitude (entries up to %.3g): tapkee::embed (or the routines it "
+                          "calls) aborts / hangs instead of throwing an exception or returning a matrix: %s" % (
+                              max(abs(x) for row in c["table"] for x in row), str(r.why)[:500]))
+            continue
+        if r.X is not None:
+            key = "exception: " + r.X[:60]
+            outcomes[key] = outcomes.get(key, 0) + 1
+            continue
+        E, B, refvals = r.mat("emb"), r.mat("B"), r.mat("refvals")
+        if r.garbage or E is None or (E[0], E[1]) != (n, d):
+            ctx.violation(slim(c), "finite input of huge magnitude: the embedding is missing or not N x target_dimension")
+            continue
+        finite = (all(x is not None for row in E[2] for x in row) and B is not None and refvals is not None
+                  and all(x is not None for row in B[2] for x in row) and all(x[0] is not None for x in refvals[2]))
+        key = "matrix (%s)" % ("finite" if finite else "with NaN/inf")
+        outcomes[key] = outcomes.get(key, 0) + 1
+        if finite and c["solver"] != "randomized":
+            second.append((c, E[2], [fl(x[0]) for x in refvals[2]]))
+            mlines.append(model_B_line(c))
+    mB = [model_matrix(x) for x in run_model(ctx, mexe, mlines)]
+    flines = []
+    for (c, Yq, lam), Bm in zip(second, mB):
+        n, d = c["n"], c["d"]
+        lmax = max(abs(x) for x in lam)
+        top = [max(x, 0.0) for x in lam[n - d:]]
+        flines.append(factor_line("dense", n, d, Bm, Yq, top, lmax)[0])
+    for (c, Yq, lam), o in zip(second, run_model(ctx, mexe, flines)):
+        stats["spec_factor_checks"] += 1
+        stats["huge_spec_checked"] = stats.get("huge_spec_checked", 0) + 1
+        if o != "B 1":
+            n, d = c["n"], c["d"]
+            ctx.violation(slim(c), "finite input of huge magnitude, every intermediate finite: the embedding violates the "
+                          "factor specification (lambda = %s): column squared norms %s" % (
+                              [max(x, 0.0) for x in lam[n - d:]],
+                              sorted(sum(fl(Yq[a][cc]) ** 2 for a in range(n)) for cc in range(d))))
+    return len(cases)
 
 
 # ----------------------------------------------------------------------------- known finding F7
@@ -1316,6 +1653,9 @@ def evaluate_all(ctx, exe, mexe, tab, cases, stats, shrink=True, scale=True):
     n += eval_matrix_stage(ctx, exe, mexe, [c for c in cases if c["stream"] in ("exact", "generic")], stats)
     n += eval_triangles(ctx, exe, mexe, [c for c in cases if c["stream"] == "tri"], stats)
     n += eval_rgs(ctx, exe, mexe, [c for c in cases if c["stream"] == "rgs"], stats)
+    n += eval_huge(ctx, exe, mexe, [c for c in cases if c["stream"] == "huge"], stats)
+    # replays / corpus entries that are calling-context or keyword variants
+    n += eval_variants(ctx, exe, mexe, tab, [c for c in cases if c["stream"] in ("par", "kw")], stats, report=True)
     e2e = [c for c in cases if c["stream"] == "e2e"]
 
     def run_chunk(chunk):
@@ -1338,6 +1678,7 @@ def evaluate_all(ctx, exe, mexe, tab, cases, stats, shrink=True, scale=True):
     base = [c for c in e2e if not c.get("scale_exp")]
     given = [c for c in e2e if c.get("scale_exp")]           # replays / corpus entries that are scaled copies
     counter = [0]
+    vcounter = [0]
     for i in range(0, len(base), 60):
         chunk = base[i:i + 60]
         n += run_chunk(chunk)
@@ -1346,6 +1687,10 @@ def evaluate_all(ctx, exe, mexe, tab, cases, stats, shrink=True, scale=True):
             extra += sc
             for j in range(0, len(sc), 120):
                 n += run_chunk(sc[j:j + 120])
+            # the same requests from inside an application's parallel region / with keywords left at their defaults
+            va = plan_variants(chunk, vcounter, ctx.quick)
+            extra += va
+            n += eval_variants(ctx, exe, mexe, tab, va, stats, report=True)
     for i in range(0, len(given), 60):
         n += run_chunk(given[i:i + 60])
     n += eval_isomap_vs_mds(ctx, exe, base, stats)
@@ -1381,6 +1726,7 @@ def run(ctx):
     cases += gen_generic_matrix(rng, 30 if quick else 300)
     cases += gen_tri(rng, 12 if quick else 100)
     cases += gen_rgs(rng, 10 if quick else 80)
+    cases += gen_huge(rng, 27 if quick else 108)
     cases += gen_e2e(rng, quick, 96 if quick else 448, 24 if quick else 48)
     n, scaled = evaluate_all(ctx, exe, mexe, tab, cases, stats)
     cases += scaled
@@ -1405,7 +1751,7 @@ def run(ctx):
         ctx.note("search phase: proof / translator / correspondence no longer checks; looking for a failing input")
         srng = vlib.random.Random(ctx.seed + 1)
         extra = gen_e2e(srng, False, 400 if quick else 2000, 24) + gen_exact(srng, 300) + small_exhaustive()
-        extra += gen_rgs(srng, 40)
+        extra += gen_rgs(srng, 40) + gen_huge(srng, 54)
         n2, scaled2 = evaluate_all(ctx, exe, mexe, tab, extra, stats)
         n += n2
         cases += extra + scaled2
@@ -1418,7 +1764,7 @@ def run(ctx):
     for c in cases:
         sizes["N=%d" % c["n"]] = sizes.get("N=%d" % c["n"], 0) + 1
     distinct = {case_key(c) for c in cases if (c["stream"] == "e2e" and c["n"] >= 3) or
-                (c["stream"] in ("exact", "generic") and c["n"] >= 4) or c["stream"] in ("tri", "rgs")}
+                (c["stream"] in ("exact", "generic") and c["n"] >= 4) or c["stream"] in ("tri", "rgs", "par", "kw", "huge")}
     samples = [slim(c) for c in (cases[:1] + [c for c in cases if c["stream"] == "e2e"][:3]) if c["n"] <= 8][:4]
     ctx.finish(
         evaluations=n, distinct_nontrivial=len(distinct),
